@@ -100,6 +100,46 @@ PROPS = {
                    'snapshot = last N items), not yet theorems. Known (outside the OS quantifier): F4.',
         technique='Lean 4 proof (feed = splitRecords by induction over reads with a buffer-splitting invariant) + model/implementation correspondence',
     ),
+    'C07': dict(
+        areas=[('filter', 4000, 300000)],
+        procs=['pipe', 'sessions'], needs_fzf=True,
+        rule='(a) the real binary in filter mode fed through a pipe in seeded write sizes (1..65536 bytes): records with leading / '
+             'trailing blanks, empty lines, multi-line NUL-separated records, non-ASCII, SGR sequences; all combinations of --read0 / '
+             '--print0 / --print-query / --ansi / --with-nth / --delimiter / --no-sort / --tac; (b) the real binary inside a private '
+             'tmux server driven through --listen: random action histories ending in accept / accept-non-empty / '
+             'accept-or-print-query / abort / print-query / cancel, with --multi selection histories, print(), --print-query; '
+             '(c) in-process filter runs; non-trivial = some but not all records printed / a history of >= 5 steps; distinct = distinct case lines',
+        trusted=['tmux as the terminal emulator', 'the --listen endpoint as the way to inject actions', 'OS pipes'],
+        level_text='Lean 4 theorems: exit status and output of a session stated outright for every final state (abort 130 and no '
+                   'output; print-query 0; accept 0 iff a selected or current line is output, else 1); output order (query, queued '
+                   'prints, selection in selection order or the current line); every item carries its original record as the text '
+                   'to print, also under --with-nth. The real binary is run under pipes and tmux; stdout bytes and exit status are '
+                   'compared with the model and judged against "every printed record is an input record byte for byte, '
+                   'terminated as requested, exit 0 iff something was output".',
+        level_note='Partial: --expect, --select-1 / --exit-0 and --accept-nth are not yet driven; exit status 2 on option errors is '
+                   'covered under C17. Fixed while building: F13.',
+        technique='Lean 4 proof (decision-table theorems over the session model) + process-level correspondence (pipes, tmux)',
+    ),
+    'C09': dict(
+        areas=[],
+        procs=['sessions'], needs_fzf=True,
+        rule='the real binary inside a private tmux server (one per session) driven through --listen, the state read back with GET '
+             'after every step: 3..30 (quick) / 3..120 (thorough) steps of 1..3 actions drawn from the bindable editing (chars, word '
+             'and line motions, kills, yank, put, change/clear/replace-query), navigation (up/down/first/last/pos/page/half-page) '
+             'and selection (select/deselect/toggle*/select-all/deselect-all/toggle-all/clear-selection) actions and toggle-sort, '
+             'over lists of 0..40 lines, window heights 5..24, three layouts, --multi limits 0/1/2/3/unlimited, --cycle, --tac, '
+             '--no-sort, --exact; non-trivial = >= 5 steps on >= 2 lines; distinct = distinct sessions',
+        trusted=['tmux', 'the --listen endpoint (state is observed after the renderer has settled: three equal consecutive GETs)',
+                 'what matching returns for a query is the C01/C04 model (parameter resultsOf of the session model)'],
+        level_text='Lean 4 theorems over the session model, for every history of action lists and every option set: the query cursor '
+                   'stays inside the query, never more than --multi items are selected (none without --multi), after rendering the '
+                   'list cursor designates an existing result or the list is empty; toggle is an involution below the limit; '
+                   'kill-line + yank restores the query; selections survive query changes. The action interpreter of the real '
+                   'binary is compared step by step with the model.',
+        level_note='Partial: --track, --no-input, offset-up/down/middle, jump and mouse actions, multi-line items are outside the '
+                   'model; the readline refinement (word motions as a zipper) is checked per case. Fixed while building: F17.',
+        technique='Lean 4 proof (invariants by induction over action histories) + step-by-step process-level correspondence under tmux',
+    ),
     'C10': dict(
         areas=[('tok', 20000, 2000000), ('pat', 4000, 400000)],
         rule='seeded lines built from delimiter / blank / multi-byte pieces (leading, trailing, consecutive delimiters); '
